@@ -75,7 +75,7 @@ PROPS = {
                     "requests and replies are handed over late, out of order, twice, after the ask was cancelled or after a restart; "
                     "every Ask that succeeds must return what the handler produced for that very request, within its deadline."},
     "C14": {"streams": [_HUB_STREAM, {"name": "frag", "quick": 15000, "thorough": 300000, "thorough_seeds": 2, "stateful": True, "seq_start": ("frag-new", "mb-new")}],
-            "oracles": ["hub", "frag"], "oracle_n_by": {"frag": {"quick": 3000, "thorough": 100000}},
+            "oracles": ["hub", "frag", "mux"], "oracle_n_by": {"frag": {"quick": 3000, "thorough": 100000}, "mux": {"quick": 2000, "thorough": 100000}},
             "rule": _HUB_RULE + " Buffer ownership above the hubs: in the frag, ke and ket streams every packet is handed to the layer in a "
                     "buffer that the harness overwrites as soon as the call returns (hx.Lend/Reclaim), as a transport that reuses its receive "
                     "buffers does; a layer that keeps a reference instead of a copy delivers corrupted bytes, which the model does not.", "level": "proof",
